@@ -354,8 +354,9 @@ def _cse_mapper(ctx, model):
     for ps in summarize(gc.node):
         if ps.term != "return":
             continue
-        missed = any(isinstance(v, tuple) and v[0] == "except"
-                     for _, _, v in ps.conds)
+        from ..rules import lookup_case
+        case = lookup_case(ps, lambda t: t == ("self", "canonical_subexprs"))
+        missed = case == "miss"
         stores = [e for e in ps.events if e.kind == "itemwrite"
                   and e.arg == ("self", "canonical_subexprs")]
         if not missed:
@@ -492,11 +493,38 @@ def _entry(ctx, model):
         ctx.ob("S/tag_common_subexpressions/shared-key-getter", same, loc,
                "counting and rewriting use the same key getter" if same else
                "UseCountMapper and CSEMapper are not given the same key getter")
-        thr = (elim[0] == "seq" and elim[3][0] == "items"
-               and elim[3][1] == ("attr", ucm, "subexpr_counts")
-               and elim[2] == ("key", elim[3][1])
-               and tuple(c.replace(" ", "") for c in elim[4]) == ("count>1",)) \
-            if ucm else False
+        COUNTS = ("attr", ucm, "subexpr_counts") if ucm else None
+
+        def min_count(c, pol=True):
+            """smallest count admitted by a comparison of the count with a
+            constant, None if c is not such a comparison"""
+            if not (isinstance(c, tuple) and c[0] == "compare" and len(c[1]) == 1):
+                return None
+            op, left, right = c[1][0], c[2], c[3][0]
+            if left == ("val", COUNTS) and right[0] == "const":
+                k = right[1]
+            elif right == ("val", COUNTS) and left[0] == "const":
+                k = left[1]
+                op = {"Lt": "Gt", "LtE": "GtE", "Gt": "Lt", "GtE": "LtE"}.get(op)
+            else:
+                return None
+            if not pol:
+                op = {"Lt": "GtE", "LtE": "Gt", "Gt": "LtE", "GtE": "Lt"}.get(op)
+            if op == "Gt":
+                return k + 1
+            if op == "GtE":
+                return k
+            return None
+
+        thr = False
+        if ucm and elim[0] == "seq" and elim[3] == ("items", COUNTS) and \
+                elim[2] == ("key", COUNTS) and len(elim[4]) == 1:
+            thr = min_count(getattr(elim[4][0], "val", None)) == 2
+        elif ucm and elim[0] in ("extend", "seq") and \
+                elim[2] == ("key", COUNTS) and elim[3] == ("items", COUNTS):
+            thr = any(min_count(v, pol) == 2 for _, pol, v in ps.conds)
+        elif ucm and elim in (("call", "set", (), ()), ("lit", "set", ())):
+            continue      # the path on which the loop adds nothing
         ctx.ob("P/tag_common_subexpressions/threshold", thr, loc,
                "eliminates exactly the keys counted more than once" if thr else
                "the elimination set is not {key : count > 1} over the use counts")
